@@ -60,6 +60,9 @@ MUTANTS = [
     ("C07", "detect", FIL, "return any(entry == expected for entry in value)", "return all(entry == expected for entry in value)", "by_value on list attributes"),
     ("C07", "detect", FIL, "get(\"deprecated\") is True", "get(\"deprecated\")", "truthy deprecated"),
     ("C07", "detect", FIL, "        if not self._includes:", "        if self._includes:", "empty include set inverted"),
+    ("C07", "detect", "cli/commands/run/filters.py", "        for method in self.include_method:\n            filter_set.include(method=method)", "        for method in self.include_method:\n            filter_set.include(path=method)", "--include-method values used as path filters"),
+    ("C07", "detect", "cli/commands/run/filters.py", "        for tag in self.exclude_tag:\n            apply_exclude_filter(filter_set, \"tag\", tag=tag)", "        for tag in self.exclude_tag:\n            filter_set.include(tag=tag)", "--exclude-tag values included instead of excluded"),
+    ("C07", "detect", "cli/commands/run/filters.py", "                path_regex=self.include_path_regex,", "                path_regex=self.include_name_regex,", "--include-path-regex replaced by the name regex"),
     # ---- C08
     ("C08", "detect", "specs/openapi/_cache.py", "            self._id_to_operation[operation_id] = idx", "            self._id_to_operation[operation_id] = idx + 1", "operationId index off by one"),
     ("C08", "detect", "specs/openapi/_cache.py", "        self._traversal_key_to_operation[traversal_key] = idx\n", "        self._traversal_key_to_operation = {traversal_key: idx}\n", "insert drops the other traversal keys"),
